@@ -448,6 +448,18 @@ func ext۰strings۰Builder۰String(fr *frame, a []value) value {
 
 func ext۰sync۰Lock(fr *frame, a []value) value {
 	p := a[0].(*value)
+	i := fr.i
+	if i.race != nil {
+		i.schedPoint()
+		for i.locks[p] != 0 {
+			i.waitOn(p)
+		}
+		i.locks[p] = -1
+		i.raceAcquire(p)
+		i.raceAcquireRead(p)
+		i.lockEvent("lock", p)
+		return nil
+	}
 	if fr.i.locks[p] != 0 {
 		panic(pathAbort{kind: abortDeadlock, msg: "sync: Lock of a mutex that is already held (self-deadlock)"})
 	}
@@ -463,11 +475,26 @@ func ext۰sync۰Unlock(fr *frame, a []value) value {
 	}
 	fr.i.locks[p] = 0
 	fr.i.lockEvent("unlock", p)
+	if fr.i.race != nil {
+		fr.i.raceRelease(p)
+		fr.i.wake(p)
+		fr.i.schedPoint()
+	}
 	return nil
 }
 
 func ext۰sync۰RLock(fr *frame, a []value) value {
 	p := a[0].(*value)
+	if i := fr.i; i.race != nil {
+		i.schedPoint()
+		for i.locks[p] < 0 {
+			i.waitOn(p)
+		}
+		i.locks[p]++
+		i.raceAcquire(p)
+		i.lockEvent("rlock", p)
+		return nil
+	}
 	if fr.i.locks[p] < 0 {
 		panic(pathAbort{kind: abortDeadlock, msg: "sync: RLock of a mutex that is write-locked (self-deadlock)"})
 	}
@@ -483,6 +510,13 @@ func ext۰sync۰RUnlock(fr *frame, a []value) value {
 	}
 	fr.i.locks[p]--
 	fr.i.lockEvent("runlock", p)
+	if fr.i.race != nil {
+		fr.i.raceReleaseRead(p)
+		if fr.i.locks[p] == 0 {
+			fr.i.wake(p)
+		}
+		fr.i.schedPoint()
+	}
 	return nil
 }
 
@@ -503,6 +537,28 @@ func ext۰sync۰Once۰Do(fr *frame, a []value) value {
 	}
 	once := (*p).(structure)
 	done := once[0].(structure) // atomic.Uint32{_ noCopy; v uint32}
+	if i := fr.i; i.race != nil {
+		// concurrent callers wait until the first one has finished
+		i.schedPoint()
+		type onceRunning struct{ p *value }
+		key := onceRunning{p}
+		for done[len(done)-1].(uint32) == 0 && i.race.wg[p] != 0 {
+			i.waitOn(key)
+		}
+		if done[len(done)-1].(uint32) != 0 {
+			i.raceAcquire(p)
+			return nil
+		}
+		i.race.wg[p] = 1
+		defer func() {
+			done[len(done)-1] = uint32(1)
+			i.race.wg[p] = 0
+			i.raceRelease(p)
+			i.wake(key)
+		}()
+		call(i, fr, token.NoPos, a[1], nil)
+		return nil
+	}
 	if done[len(done)-1].(uint32) != 0 {
 		return nil
 	}
@@ -516,6 +572,10 @@ func ext۰sync۰Once۰Do(fr *frame, a []value) value {
 // for residue between uses.
 func ext۰sync۰Pool۰Get(fr *frame, a []value) value {
 	p := a[0].(*value)
+	if fr.i.race != nil {
+		fr.i.schedPoint()
+		fr.i.raceAcquire(p)
+	}
 	if l := fr.i.pools[p]; len(l) > 0 {
 		v := l[len(l)-1]
 		fr.i.pools[p] = l[:len(l)-1]
@@ -536,10 +596,20 @@ func ext۰sync۰Pool۰Put(fr *frame, a []value) value {
 		return nil
 	}
 	fr.i.pools[p] = append(fr.i.pools[p], a[1])
+	if fr.i.race != nil {
+		fr.i.raceRelease(p)
+		fr.i.schedPoint()
+	}
 	return nil
 }
 
 func (i *interpreter) syncMap(p *value) *gmap {
+	if i.race != nil {
+		// every sync.Map operation is atomic: ordered with every other on the same map
+		i.schedPoint()
+		i.raceAcquire(p)
+		i.raceRelease(p)
+	}
 	m := i.syncMaps[p]
 	if m == nil {
 		m = makeMap(types.NewInterfaceType(nil, nil), 0).(*gmap)
@@ -591,7 +661,18 @@ func atomicLoad(fr *frame, a []value) value {
 	if p == nil {
 		panic(fr.i.rtPanic("invalid memory address or nil pointer dereference"))
 	}
+	atomicSync(fr, p)
 	return *p
+}
+
+// atomicSync: an atomic operation is a scheduling point and is ordered with every other
+// atomic operation on the same address.
+func atomicSync(fr *frame, p *value) {
+	if fr.i.race != nil {
+		fr.i.schedPoint()
+		fr.i.raceAcquire(p)
+		fr.i.raceRelease(p)
+	}
 }
 
 func atomicStore(fr *frame, a []value) value {
@@ -599,6 +680,7 @@ func atomicStore(fr *frame, a []value) value {
 	if p == nil {
 		panic(fr.i.rtPanic("invalid memory address or nil pointer dereference"))
 	}
+	atomicSync(fr, p)
 	*p = a[1]
 	return nil
 }
@@ -608,12 +690,14 @@ func atomicAdd(fr *frame, a []value) value {
 	if p == nil {
 		panic(fr.i.rtPanic("invalid memory address or nil pointer dereference"))
 	}
+	atomicSync(fr, p)
 	*p = binop(fr.i, token.ADD, nil, *p, a[1])
 	return *p
 }
 
 func atomicCAS(fr *frame, a []value) value {
 	p := a[0].(*value)
+	atomicSync(fr, p)
 	if fr.i.truth(equalsV(fr.i, nil, *p, a[1])) {
 		*p = a[2]
 		return true
